@@ -76,6 +76,14 @@ type Source struct {
 	dropAt   int64 // drop the link once this many stream bytes were written (-1 = never)
 	BadAuth  int
 	Drops    []DropEv
+	role     string // answered to INFO replication ("" = master); switchable at run time (fail-over)
+}
+
+// SetRole changes what the node reports in INFO replication from now on ("master" or "slave").
+func (s *Source) SetRole(role string) {
+	s.mu.Lock()
+	s.role = role
+	s.mu.Unlock()
 }
 
 func New(sc Script, password string) (*Source, error) {
@@ -246,7 +254,13 @@ func (s *Source) serve(c net.Conn, id int) {
 			}
 			body := "# Server\r\nredis_version:" + s.Script.Version + "\r\n"
 			if sec == "replication" {
+				s.mu.Lock()
+				role := s.role
+				s.mu.Unlock()
 				body = "# Replication\r\nrole:master\r\nconnected_slaves:1\r\nslave0:ip=127.0.0.1,port=0,state=online,offset=1,lag=0\r\nmaster_replid:" + s.Script.RunID + "\r\n"
+				if role == "slave" {
+					body = "# Replication\r\nrole:slave\r\nmaster_host:127.0.0.1\r\nmaster_port:1\r\nmaster_link_status:up\r\nmaster_replid:" + s.Script.RunID + "\r\n"
+				}
 			} else if sec == "keyspace" {
 				body = "# Keyspace\r\n"
 			}
